@@ -774,7 +774,7 @@ func init() {
 			op := plain(r, i)
 			if op != nil && op.K == "batch" {
 				// batches of 1..30 staged operations without reads, some exceeding DataFileSize
-				nb := s.genBatch(rng, r, rng.Pick([]int{0, 4, 3, 2, 1, 1}) * 5 + 1, false)
+				nb := s.genBatch(rng, r, rng.Pick([]int{0, 4, 3, 2, 1, 1})*5+1, false)
 				nb.Dt = op.Dt
 				return nb
 			}
